@@ -724,6 +724,27 @@ func (w *World) confChange(spec ConfSpec) pb.ConfChangeI {
 // Apply executes one event. It never panics on a library assertion: the panic is
 // recorded in the StepRec and the world is marked dead.
 func (w *World) Apply(ev Event) (rec *StepRec) {
+	if ev.Kind == EvDeliverHeld {
+		// resolve to the delivery of the oldest held-back message from Node to Peer
+		best := -1
+		for i := range w.Net {
+			if m := w.Net[i].M; w.Net[i].Delayed && m.GetFrom() == uint64(ev.Node) && m.GetTo() == uint64(ev.Peer) && (best < 0 || w.Net[i].Seq < w.Net[best].Seq) {
+				best = i
+			}
+		}
+		if best < 0 {
+			rec = &StepRec{Ev: ev, Node: -1}
+			w.Steps++
+			w.runMonitors(rec)
+			return rec
+		}
+		for k, pos := range w.Distinct() {
+			if w.Net[pos].Enc == w.Net[best].Enc {
+				ev = Event{Kind: EvDeliver, Arg: uint16(k)}
+				break
+			}
+		}
+	}
 	rec = &StepRec{Ev: ev, Node: -1}
 	w.Steps++
 	var n *Node
